@@ -299,6 +299,13 @@ func (p *Program) Compile() (*Compiled, error) {
 				a.VOP2(kasm.OpVAndB32, kasm.V(vT1), imm(uint32(1)<<p.InLog2[o.K]-1), idx)
 			}
 			ad := c.address(sIn0+2*o.K, kasm.V(vT1))
+			if o.Sub != "" {
+				flatOp = map[string]int{"u8": kasm.OpFlatLoadUbyte, "i8": kasm.OpFlatLoadSbyte, "u16": kasm.OpFlatLoadUshort}[o.Sub]
+				if o.Imm != 0 {
+					// element addresses are 4-byte aligned: adding 1-3 cannot carry
+					a.VOP2(kasm.OpVAddU32, ad, imm(o.Imm), ad)
+				}
+			}
 			a.FLAT(flatOp, dst, ad, kasm.None)
 			c.issued = append(c.issued, false)
 			c.pending[r] = len(c.issued) - 1
